@@ -7,6 +7,7 @@
 package main
 
 import (
+	"errors"
 	"flag"
 	"fmt"
 	"os"
@@ -59,10 +60,12 @@ func (m *refTrigger) close() { m.held = nil }
 
 // ---- destinations ----
 type levelDest struct {
-	got   []rec
-	yield bool
-	busy  int
-	over  bool
+	got    []rec
+	yield  bool
+	busy   int
+	over   bool
+	failAt int // 1-based index of the WriteLevel call that returns an error (0 = never)
+	calls  int
 }
 
 func (d *levelDest) Write(p []byte) (int, error) {
@@ -83,8 +86,14 @@ func (d *levelDest) WriteLevel(l zerolog.Level, p []byte) (int, error) {
 		mcrt.Point("dest.exit")
 	}
 	d.busy--
+	d.calls++
+	if d.failAt != 0 && d.calls == d.failAt {
+		return 0, errDest
+	}
 	return len(p), nil
 }
+
+var errDest = errors.New("destination failed")
 
 type plainDest struct{ got []rec }
 
@@ -186,6 +195,38 @@ func main() {
 		}
 	}
 	r.Count("sequential_histories", r.Evals)
+	// destination failures: the statement does not say what a failing destination does to the held lines,
+	// but "no line is duplicated or altered" and "held lines in their original order" hold for every history: with
+	// one failing destination call, every received line is one that was written, at most once, held ones in order
+	{
+		L2 := 5
+		before := r.Evals
+		for _, pair := range [][2]zerolog.Level{{0, 3}, {3, 1}, {1, 1}} {
+			for failAt := 1; failAt <= 3; failAt++ {
+				idx := make([]int, L2)
+				for {
+					hist := make([]op, L2)
+					for i := range hist {
+						hist[i] = ops[idx[i]]
+					}
+					runFaultHistory(r, pair[0], pair[1], failAt, hist)
+					k := L2 - 1
+					for k >= 0 {
+						idx[k]++
+						if idx[k] < len(ops) {
+							break
+						}
+						idx[k] = 0
+						k--
+					}
+					if k < 0 {
+						break
+					}
+				}
+			}
+		}
+		r.Count("fault_histories", r.Evals-before)
+	}
 
 	// concurrent part
 	var plans []drv.Plan
@@ -281,6 +322,53 @@ func runHistory(r *seq.Run, cl, tl zerolog.Level, plain bool, hist []op) {
 	}
 	if r.Evals%200000 == 1 {
 		r.Sample(fmt.Sprintf("cond=%d trig=%d plain=%v history=%v -> %s", cl, tl, plain, hist, fmtRecs(gots[0])))
+	}
+}
+
+func runFaultHistory(r *seq.Run, cl, tl zerolog.Level, failAt int, hist []op) {
+	ld := &levelDest{failAt: failAt}
+	var written []string
+	mcrt.Run(mcrt.Config{}, func() {
+		w := &zerolog.TriggerLevelWriter{Writer: ld, ConditionalLevel: cl, TriggerLevel: tl}
+		for i, o := range hist {
+			switch o.kind {
+			case "w":
+				line := lineOf(7, i)
+				written = append(written, line)
+				w.WriteLevel(o.lvl, []byte(line))
+			case "trigger":
+				w.Trigger()
+			case "close":
+				w.Close()
+			}
+		}
+		w.Close()
+	})
+	r.Transitions += int64(len(hist))
+	r.Eval(fmt.Sprint("fault", cl, tl, failAt, hist, fmtRecs(ld.got)), ld.calls >= failAt)
+	pos := map[string]int{}
+	for i, l := range written {
+		pos[l] = i
+	}
+	seen := map[string]bool{}
+	last := -1
+	for _, g := range ld.got {
+		p, ok := pos[g.line]
+		switch {
+		case !ok:
+			r.Violation("", "fault/altered", fmt.Sprintf("cond=%d trig=%d, destination call %d fails, history %v: received %q which was never written", cl, tl, failAt, hist, g.line), fmt.Sprint(hist))
+			return
+		case seen[g.line]:
+			r.Violation("", "fault/duplicated", fmt.Sprintf("cond=%d trig=%d, destination call %d fails, history %v: line %q delivered twice (received %s)", cl, tl, failAt, hist, g.line, fmtRecs(ld.got)), fmt.Sprint(hist))
+			return
+		case g.lvl <= cl && p < last:
+			r.Violation("", "fault/reordered", fmt.Sprintf("cond=%d trig=%d, destination call %d fails, history %v: line %q delivered after a later one (received %s)", cl, tl, failAt, hist, g.line, fmtRecs(ld.got)), fmt.Sprint(hist))
+			return
+		}
+		seen[g.line] = true
+		if g.lvl <= cl {
+			last = p // only lines that can be held are subject to "in their original order"
+		}
 	}
 }
 
